@@ -169,7 +169,7 @@ type State struct {
 	D []*Disj
 }
 
-func TrueState() State { return State{D: []*Disj{newDisj()}} }
+func TrueState() State   { return State{D: []*Disj{newDisj()}} }
 func Unreachable() State { return State{} }
 
 func (s State) Reachable() bool { return len(s.D) > 0 }
